@@ -50,7 +50,7 @@ def _running_max(t, loop_iter_pred, elem_call_pred):
         return len(gens) == 1 and loop_iter_pred(gens[0][1]) and not gens[0][2] and elem_call_pred(comp[2]), "max(<comprehension>)"
     if t[0] != "loopout":
         return False, f"not a loop result ({t[0]})"
-    _, lid, name, init, body = t
+    lid, name, init, body = t[1], t[2], t[3], t[4]
     if init != ("const", 0):
         return False, f"running maximum starts at {ir.show(init)}, not 0"
     # find the iterable of this loop: elem terms with this loop id
